@@ -106,6 +106,8 @@ func scenariosC04() []*scenario {
 			}
 		}
 	}
+	// crash/restart combined with clock anomalies: leaf timestamps must never exceed a later tree head's
+	out = append(out, &scenario{name: "c04/s0/clock", base: 0, opt: allOpts(), bound: 2, rounds: [][]string{{"a", "b"}, {"c"}}, checkC04: true})
 	// concurrent submitters sharing a new issuer, racing with the rounds
 	for _, s0 := range []int64{0, 255} {
 		o := options{faults: true}
